@@ -67,11 +67,43 @@ def table(fl: Flow, keep: Optional[Callable[[str, str], bool]] = None):
     effs = []
     merged = _merge_exclusive_stores(fl)
     for e, expr, cond in merged:
+        expr = _propagate_equalities(expr, cond)
         s = fl.canon(expr)
         if keep is not None and not keep(e.kind, s):
             continue
         effs.append((e.kind, s, fl.canon_cond(cond), e))
     return rets, effs
+
+
+def _is_elem(x: ast.AST) -> bool:
+    return isinstance(x, ast.Call) and isinstance(x.func, ast.Name) and x.func.id.startswith("ELEM")
+
+
+def _propagate_equalities(expr: ast.AST, cond) -> ast.AST:
+    """Under a path condition `elem == X` (elem: the element a loop is looking at) the element *is* X:
+    `regs[index - 1]` under `index == stalled + 1` is `regs[stalled]`.  Substituted before printing, the printer's
+    linear simplification does the rest."""
+    import copy
+    subs = []
+    for test, pol in cond:
+        if pol and isinstance(test, ast.Compare) and len(test.ops) == 1 and isinstance(test.ops[0], ast.Eq):
+            l, r = test.left, test.comparators[0]
+            if _is_elem(l) and not any(_is_elem(x) and ast.dump(x) == ast.dump(l) for x in ast.walk(r)):
+                subs.append((ast.dump(l), r))
+            elif _is_elem(r) and not any(_is_elem(x) and ast.dump(x) == ast.dump(r) for x in ast.walk(l)):
+                subs.append((ast.dump(r), l))
+    if not subs:
+        return expr
+
+    class T(ast.NodeTransformer):
+        def visit_Call(self, n: ast.Call):
+            d = ast.dump(n)
+            for k, v in subs:
+                if d == k:
+                    return copy.deepcopy(v)
+            return self.generic_visit(n)
+
+    return T().visit(copy.deepcopy(expr))
 
 
 def _merge_exclusive_stores(fl: Flow):
